@@ -660,15 +660,17 @@ class IntermediateCodeGen(AbstractCodeGen):
         # symbol (oid as defval) or name for enumeration member
         else:
             # oid
-            if (defvalType[0][0] == 'ObjectIdentifier' and
-                    (defval in self.symbolTable[self.moduleName[0]] or
-                     defval in self._importMap)):
+            oidLabel = isinstance(defval, (str, unicode)) and self.transOpers(defval) or defval
 
-                module = self._importMap.get(defval, self.moduleName[0])
+            if (defvalType[0][0] == 'ObjectIdentifier' and
+                    (oidLabel in self.symbolTable[self.moduleName[0]] or
+                     oidLabel in self._importMap)):
+
+                module = self._importMap.get(oidLabel, self.moduleName[0])
 
                 try:
                     val = str(self.genNumericOid(
-                        self.symbolTable[module][defval]['oid']))
+                        self.symbolTable[module][oidLabel]['oid']))
 
                     outDict.update(
                         value=val,
